@@ -279,6 +279,26 @@ paths share a temporary cannot clobber a save file with it -/
 theorem tmpName_never_a_save_file (file g : List Nat) (hg : g.getLast? = some NV.Gen.C16.saveExt1) :
     tmpName file ≠ g := NV.C16.tmpName_never_a_save_file file g hg
 
+/-- the error message of every ROB_* code is the one the source raises, in the order of its if-chain; restore_variable
+has NO branch for ROB_CLASS_ERROR (a damaged class yields 0 without an error — mirrored by `restoreVariable`) -/
+theorem error_messages_as_in_source :
+    NV.Gen.C16.restoreVariableMessages =
+      [("ROB_GENERAL_ERROR", errMsg .general), ("ROB_NUMERAL_ERROR", errMsg .numeral), ("ROB_ARRAY_ERROR", errMsg .array),
+       ("ROB_MAPPING_ERROR", errMsg .mapping), ("ROB_STRING_ERROR", errMsg .string)] ∧
+    NV.Gen.C16.restoreObjectMessages =
+      [("ROB_GENERAL_ERROR", errMsgVar .general [37, 115]), ("ROB_NUMERAL_ERROR", errMsgVar .numeral [37, 115]),
+       ("ROB_ARRAY_ERROR", errMsgVar .array [37, 115]), ("ROB_MAPPING_ERROR", errMsgVar .mapping [37, 115]),
+       ("ROB_STRING_ERROR", errMsgVar .string [37, 115]), ("ROB_CLASS_ERROR", errMsgVar .cls [37, 115])] := by
+  constructor <;> decide
+
+/-- the structure bytes of the three container kinds are the character literals `save_svalue` writes, in source order
+(`(` `{` element `,` `}` `)` NUL, ...) -/
+theorem save_structure_bytes_as_in_source (F : FloatOps α) :
+    save F (.arr (.cons .obj .nil)) ++ [0] = NV.Gen.C16.saveArrayLits ∧
+    save F (.cls (.cons .obj .nil)) ++ [0] = NV.Gen.C16.saveClassLits ∧
+    save F (.map (.cons .obj .obj .nil)) ++ [0] = NV.Gen.C16.saveMappingLits := by
+  refine ⟨?_, ?_, ?_⟩ <;> simp [save, saveElems, savePairs] <;> decide
+
 /-! ## the hash table restore_mapping fills (Hash.lean): every restored pair can be looked up -/
 
 /-- **One pair of restore_mapping** (bucket `hash & mask`, duplicate test in the chain, `--unfilled`, growMap in the
